@@ -5,6 +5,13 @@ HERE = os.path.dirname(os.path.dirname(os.path.abspath(__file__)))
 ALL = [f"C{i:02d}" for i in range(1, 19)]
 # property -> (technique, level text, level note, design_ref)
 CHECKS = {
+ "C11": ("runtime invariant monitor: predicates on unwrap(obj) evaluated after construction, after assigning every raw trainable leaf "
+         "arbitrary values in the box |raw|<=50, and - through a harness rebinding of `step` in the training modules (invariant at a "
+         "hook) - after every update of real training runs with aggressive optimisers; invalid constructor arguments must raise",
+         "Exploration: 29 object kinds x (uniform / corner / mixed / normal) raw assignments x repetitions, ~260 constructor round trips with "
+         "magnitudes 1e-6..1e6, 25 invalid-argument probes, 32 training histories (230 checked steps) per quick run.",
+         "Planar predicate only where the constraint is representable (w.u >= -30); spline strictness only for softmax_adjust >= 1e-3.",
+         "DESIGN.md 4/C11"),
  "C09": ("runtime invariant monitor: exact-zero / strict-positivity predicates on the float64 autodiff Jacobians of the real layers and of "
          "the unwrapped masked conditioner after every trainable leaf has been overwritten; mask helpers vs NumPy definitions",
          "Exploration over an enumerated grid (dim 1-4 x cond x width 1-5 x depth 0-2 x transformer sizes, BNAF block sizes; quick: half "
